@@ -179,14 +179,15 @@ class SymMath:
 
 def obj_vec_class():
     """Vec twin for modules that create float result buffers with Vec(0.,0.,0.) and then store into them: the buffer is
-    made object-dtype so it can hold symbolic reals; everything else is the real Vec"""
+    made object-dtype so it can hold symbolic reals (float buffers only); everything else is the real Vec"""
     from mouette.geometry import Vec
 
     class ObjVec(Vec):
         def __new__(cls, *a):
             arr = _np.asarray(a[0]) if len(a) == 1 else _np.asarray(a)
-            if arr.dtype != object:
+            if arr.dtype.kind == "f":
                 arr = arr.astype(object)
+            # (an integer buffer stays an integer buffer: it cannot hold reals in the real code either)
             return arr.view(Vec)
     return ObjVec
 
